@@ -157,6 +157,7 @@ def gen_case(rng):
             bound[o] = alt[o]
             call[o] = values[o]
     case = {"ctor": ctor, "sig": sig, "axis": axis, "args": args, "mode": mode, "bound": bound, "call": call,
+            "axis_str": rng.random() < 0.3,
             "in_sig": in_sig, "out_sig": out_sig}
     # the plan that undoes the padding
     bw_eff = dict((d, w) for d, w in (resolve(case, "bw", None) or []))
@@ -294,7 +295,8 @@ def run_impl(case):
         if "pad_before" in o:
             kw["pad_before_func"] = o["pad_before"]
         return kw
-    axis = [tuple(a) for a in case["axis"]]
+    # an entry naming one axis may be spelled as a plain string
+    axis = [a[0] if case.get("axis_str") and len(a) == 1 else tuple(a) for a in case["axis"]]
     try:
         mode = case["mode"]
         if mode == "apply":
